@@ -199,6 +199,7 @@ type Parser struct {
 	currFunc  string
 	usedFuncs map[string][]string // Stores which function (key) calls which functions (values).
 	importing []string            // Absolute paths of the files on the current import chain.
+	visiting  []string            // Functions whose used functions are currently being collected.
 }
 
 func New() Parser {
@@ -452,6 +453,13 @@ func (p *Parser) checkNewVariableNameToken(token lexer.Token, ctx context) error
 func (p *Parser) getUsedFuncs(startFunc string) []string {
 	usedFuncs := []string{}
 	startFunc = strings.TrimSpace(startFunc)
+
+	// A function which is already being collected further up the call chain must not be followed again.
+	if slices.Contains(p.visiting, startFunc) {
+		return usedFuncs
+	}
+	p.visiting = append(p.visiting, startFunc)
+	defer func() { p.visiting = p.visiting[:len(p.visiting)-1] }()
 
 	if usedFuncsTemp, exists := p.usedFuncs[startFunc]; exists {
 		if len(startFunc) > 0 && !slices.Contains(usedFuncs, startFunc) {
